@@ -519,6 +519,9 @@ enum CMode {
 #[derive(Clone, Debug, Serialize, Deserialize)]
 struct S3 {
 	env: Env,
+	/// the payment is below the dust limit (no HTLC output on any commitment)
+	#[serde(default)]
+	dust: bool,
 	/// final CLTV delta = MIN_FINAL_CLTV_EXPIRY_DELTA + fd_extra
 	fd_extra: u8,
 	mode: CMode,
@@ -536,7 +539,41 @@ fn cmode_strategy() -> impl Strategy<Value = CMode> + Clone {
 }
 
 fn s3_strategy() -> impl Strategy<Value = S3> + Clone {
-	(env_strategy(), prop_oneof![Just(0u8), 0u8..12], cmode_strategy(), delays_strategy(), arrive_strategy()).prop_map(|(env, fd_extra, mode, delays, pre)| S3 { env, fd_extra, mode, delays, pre })
+	(env_strategy(), proptest::bool::weighted(0.12), prop_oneof![Just(0u8), 0u8..12], cmode_strategy(), delays_strategy(), arrive_strategy()).prop_map(|(env, dust, fd_extra, mode, delays, pre)| S3 { env, dust, fd_extra, mode, delays, pre })
+}
+
+fn fixed_env(ctype: CType, s: u8) -> Env {
+	Env { ctype, styles: vec![s % 11, (s / 2 + 3) % 11, (s + 7) % 11], amt_msat: 5_000_777, cltv_delta: MIN_CLTV_EXPIRY_DELTA, fee_base_msat: 1000, fee_ppm: 0 }
+}
+
+const ENUM_DELAYS: [(u8, u8, u8); 4] = [(1, 0, 0), (18, 18, 0), (18, 1, 3), (6, 12, 0)];
+
+fn s3_enumeration() -> Vec<S3> {
+	let mut modes = vec![];
+	for disconnect in [false, true] {
+		for stage in 0u8..=2 {
+			modes.push(CMode::Silent { disconnect, stage });
+		}
+	}
+	for at in -3i8..=3 {
+		modes.push(CMode::LateFulfill { at });
+		modes.push(CMode::LateFail { at });
+	}
+	for wake in -3i8..=4 {
+		for c_wins in [false, true] {
+			modes.push(CMode::OnChain { wake, c_wins });
+		}
+	}
+	let mut v = vec![];
+	for ctype in [CType::Static, CType::Anchors, CType::ZeroFee] {
+		for (mi, mode) in modes.iter().enumerate() {
+			for (di, (d_commit, d_htlc, cross_burst)) in ENUM_DELAYS.iter().enumerate() {
+				let s = (mi * 5 + di * 3) as u8;
+				v.push(S3 { env: fixed_env(ctype, s), dust: false, fd_extra: (s % 3) as u8, mode: *mode, delays: Delays { d_commit: *d_commit, d_htlc: *d_htlc, cross_burst: *cross_burst }, pre: [Arrive::Burst, Arrive::Single, Arrive::SinglePump][(s % 3) as usize] });
+			}
+		}
+	}
+	v
 }
 
 fn s3_oracle(c: &S3, ctx: &mut Ctx) -> CaseResult {
@@ -551,7 +588,9 @@ fn s3_inner(c: &S3, ctx: &mut Ctx, d: &mut Drv) -> CaseResult {
 	let (a, b, cn) = (0usize, 1usize, 2usize);
 	let grace = LATENCY_GRACE_PERIOD_BLOCKS;
 	let fd = MIN_FINAL_CLTV_EXPIRY_DELTA as u32 + c.fd_extra as u32;
-	let p = d.sim.send_custom(a, &[0, 1], c.env.amt_msat, fd, 0, 0).ok_or_else(|| Failure::new("harness", "no route"))?;
+	let amt = if c.dust { 100_777 } else { c.env.amt_msat };
+	ctx.label_if(c.dust, "s3:dust-htlc");
+	let p = d.sim.send_custom(a, &[0, 1], amt, fd, 0, 0).ok_or_else(|| Failure::new("harness", "no route"))?;
 	vensure!(d.sim.pays[p].state != PayState::Refused, "harness", "send refused");
 	let hash = d.sim.pays[p].hash;
 	let stage = match c.mode {
@@ -639,8 +678,11 @@ fn s3_inner(c: &S3, ctx: &mut Ctx, d: &mut Drv) -> CaseResult {
 	let t = Timeline::build(&d.sim);
 	let view = chain_view(&d.sim, htlc_sat, &hash);
 	let b_commit = t.first_commit_broadcast(&d.sim, b, 1);
-	let fulfilled_offchain = t.fulfills.iter().any(|m| m.from == cn && m.to == b && m.hash == Some(hash)) && t.fulfill_of(b, a, &hash).is_some() && b_commit.map(|x| x.0).unwrap_or(u32::MAX) > t.fulfills.iter().find(|m| m.from == cn && m.to == b).unwrap().h_from;
-	let failed_offchain = matches!(c.mode, CMode::LateFail { at } if (out_exp as i64 + at as i64) < trigger as i64);
+	// what C's answer achieved off chain: it counts only if B received it while the B-C channel was still open
+	// (the error B sends when it force-closes reaches C immediately; ChannelClosed follows the broadcast decision)
+	let b_closed_1 = t.closure_step(&d.sim, b, 1);
+	let fulfilled_offchain = t.delivered_before(true, cn, b, &hash, b_closed_1).is_some();
+	let failed_offchain = t.delivered_before(false, cn, b, &hash, b_closed_1).is_some() && matches!(c.mode, CMode::LateFail { .. });
 	// (c) the holder commitment goes on chain within the grace period after the outgoing HTLC expired, not before
 	// (the first moment B can act on height `trigger` is the first time it processes events at a height >= trigger:
 	// `trigger` itself, or the end of the burst in which it crossed that height)
@@ -649,6 +691,9 @@ fn s3_inner(c: &S3, ctx: &mut Ctx, d: &mut Drv) -> CaseResult {
 		vensure!(h >= trigger, "onchain-too-early", "B broadcast its commitment at height {} but the outgoing HTLC expires at {} (+{} grace)", h, out_exp, grace);
 		vensure!(h <= act_height, "onchain-too-late", "B broadcast its commitment only at height {}, the outgoing HTLC expired at {}, the grace period ended at {} and B could act at {}", h, out_exp, trigger, act_height);
 		vensure!(!(matches!(c.mode, CMode::LateFulfill { at } | CMode::LateFail { at } if (out_exp as i64 + at as i64) < trigger as i64)), "closed-while-peer-merely-slow", "B went on chain although C resolved the HTLC at height {} < {}", action_at.unwrap(), trigger);
+		if let CMode::LateFulfill { at } | CMode::LateFail { at } = c.mode {
+			vensure!((out_exp as i64 + at as i64) >= trigger as i64 && !fulfilled_offchain && !failed_offchain, "harness", "answer before the trigger yet B closed");
+		}
 	} else {
 		let c_commit_first = view.commit_confirmed.get(&1).map(|x| x.1 <= trigger).unwrap_or(false);
 		vensure!(fulfilled_offchain || failed_offchain || c_commit_first, "onchain-too-late", "outgoing HTLC expired at {} and was never resolved, yet B did not go on chain by {}", out_exp, trigger);
@@ -683,7 +728,7 @@ fn s3_inner(c: &S3, ctx: &mut Ctx, d: &mut Drv) -> CaseResult {
 		};
 		vensure!(f.h_from + 1 >= buried_from + ANTI_REORG_DELAY, "failed-upstream-before-buried", "B failed the incoming HTLC at height {} but the downstream timeout confirmed at {} (needs {} confirmations)", f.h_from, buried_from, ANTI_REORG_DELAY);
 		vensure!(f.h_from < in_exp + grace, "failed-upstream-too-late", "B failed the incoming HTLC (expiry {}) only at height {}", in_exp, f.h_from);
-		ctx.label_if(f.h_from + grace >= in_exp, "s3:upstream-fail-within-grace-of-expiry");
+		ctx.label_if(f.h_from + 2 * grace >= in_exp, "s3:upstream-failed-within-6-blocks-of-its-expiry");
 		ctx.label_if(c.delays.d_commit as u32 + c.delays.d_htlc as u32 >= 2 * MAX_BLOCKS_FOR_CONF - 2, "s3:max-confirmation-delays");
 	}
 	ctx.label(match c.mode {
@@ -694,6 +739,7 @@ fn s3_inner(c: &S3, ctx: &mut Ctx, d: &mut Drv) -> CaseResult {
 		CMode::OnChain { .. } => "s3:on-chain-race",
 	});
 	ctx.label_if(b_commit.is_some(), "s3:B-went-on-chain");
+	ctx.label_if(b_commit.is_none() && view.commit_confirmed.contains_key(&1), "s3:only-C-went-on-chain");
 	ctx.nontrivial_if(b_commit.is_some() || matches!(c.mode, CMode::LateFulfill { .. } | CMode::LateFail { .. }));
 	ctx.summary(json!({"scenario": "S3", "mode": format!("{:?}", c.mode), "delays": format!("{:?}", c.delays), "delta": c.env.cltv_delta, "type": format!("{:?}", c.env.ctype), "b_commit_height_minus_out_expiry": b_commit.map(|x| x.0 as i64 - out_exp as i64)}));
 	Ok(())
@@ -739,6 +785,21 @@ fn s4_strategy() -> impl Strategy<Value = S4> + Clone {
 		arrive_strategy(),
 	)
 		.prop_map(|(env, fd_extra, dead, back, delays, pre)| S4 { env, fd_extra, dead, back, delays, pre })
+}
+
+fn s4_enumeration() -> Vec<S4> {
+	let mut v = vec![];
+	for ctype in [CType::Static, CType::Anchors, CType::ZeroFee] {
+		for (i, dead) in [Dead::Disconnected, Dead::NothingDelivered, Dead::NoAnswer].into_iter().enumerate() {
+			for back in [None, Some(-3i8), Some(-2), Some(-1), Some(0), Some(1), Some(2)] {
+				for (di, (d_commit, d_htlc, cross_burst)) in ENUM_DELAYS.iter().enumerate() {
+					let s = (i * 7 + di * 3 + back.unwrap_or(5) as usize + 3) as u8;
+					v.push(S4 { env: fixed_env(ctype, s), fd_extra: (s % 4) as u8, dead, back, delays: Delays { d_commit: *d_commit, d_htlc: *d_htlc, cross_burst: *cross_burst }, pre: [Arrive::Burst, Arrive::Single, Arrive::SinglePump][(s % 3) as usize] });
+				}
+			}
+		}
+	}
+	v
 }
 
 fn s4_oracle(c: &S4, ctx: &mut Ctx) -> CaseResult {
@@ -868,6 +929,21 @@ fn s5_strategy() -> impl Strategy<Value = S5> + Clone {
 		.prop_map(|(env, fd_extra, hold, release, pre)| S5 { env, fd_extra, hold, release, pre })
 }
 
+fn s5_enumeration() -> Vec<S5> {
+	let mut v = vec![];
+	for ctype in [CType::Static, CType::Anchors, CType::ZeroFee] {
+		for hold in [Hold::AwaitingRaa, Hold::MonitorUpdate] {
+			for release in [None, Some(-3i8), Some(-2), Some(-1), Some(0), Some(1), Some(2), Some(3)] {
+				for (pi, pre) in [Arrive::Burst, Arrive::Single, Arrive::SinglePump].into_iter().enumerate() {
+					let s = (pi * 3 + release.unwrap_or(4) as usize + 3) as u8;
+					v.push(S5 { env: fixed_env(ctype, s), fd_extra: (s % 4) as u8, hold, release, pre });
+				}
+			}
+		}
+	}
+	v
+}
+
 fn s5_oracle(c: &S5, ctx: &mut Ctx) -> CaseResult {
 	constants_consistent().map_err(|e| Failure::new("constants", e))?;
 	let spec = timing_world(Topology::Line3, c.env.ctype, c.env.cltv_delta, c.env.fee_base_msat, c.env.fee_ppm, &c.env.styles);
@@ -963,38 +1039,73 @@ fn s5_inner(c: &S5, ctx: &mut Ctx, d: &mut Drv) -> CaseResult {
 fn main() {
 	install_recording_signer();
 	let mut c = Check::new("C08", "exploration");
-	c.assume("all peers are unmodified LDK nodes; silence, slowness and last-moment answers are schedules of the harness-owned transport and of block delivery");
-	c.assume("the library's stated bounds are respected: every transaction a node broadcasts confirms within MAX_BLOCKS_FOR_CONF (18) blocks of being minable, no reorganisations");
-	c.assume("crate-private constants (MAX_BLOCKS_FOR_CONF 18, CLTV_CLAIM_BUFFER 36, LATENCY_GRACE_PERIOD_BLOCKS 3, CLTV_FAR_FAR_AWAY 2016) are restated from their documentation and pinned by checks at both sides of each boundary");
+	c.assume("all peers are unmodified LDK nodes; silence, slowness and last-moment answers are schedules of the harness-owned transport, of block delivery to individual nodes and of confirmation delays");
+	c.assume("the library's stated bounds are respected: every transaction a node broadcasts confirms within MAX_BLOCKS_FOR_CONF (18) blocks of the height at which the node was due to act, there are no reorganisations, fee estimates are constant, and the node processes its events after every block except inside generated bursts");
+	c.assume("crate-private constants (MAX_BLOCKS_FOR_CONF 18, CLTV_CLAIM_BUFFER 36, LATENCY_GRACE_PERIOD_BLOCKS 3, CLTV_FAR_FAR_AWAY 2016) are restated from their documentation, tied to the public HTLC_FAIL_BACK_BUFFER / MIN_CLTV_EXPIRY_DELTA / MIN_FINAL_CLTV_EXPIRY_DELTA by the documented relations, and pinned by checks at both sides of every boundary");
+	c.assume("the upstream payer A answers within the same block height (it is honest and responsive); deltas are at least MIN_CLTV_EXPIRY_DELTA, final deltas at least MIN_FINAL_CLTV_EXPIRY_DELTA in S3-S5");
+	c.note("thresholds", json!({"HTLC_FAIL_BACK_BUFFER": HTLC_FAIL_BACK_BUFFER, "ANTI_REORG_DELAY": ANTI_REORG_DELAY, "MIN_CLTV_EXPIRY_DELTA": MIN_CLTV_EXPIRY_DELTA, "MIN_FINAL_CLTV_EXPIRY_DELTA": MIN_FINAL_CLTV_EXPIRY_DELTA, "restated": {"MAX_BLOCKS_FOR_CONF": MAX_BLOCKS_FOR_CONF, "CLTV_CLAIM_BUFFER": CLTV_CLAIM_BUFFER, "LATENCY_GRACE_PERIOD_BLOCKS": LATENCY_GRACE_PERIOD_BLOCKS, "CLTV_FAR_FAR_AWAY": CLTV_FAR_FAR_AWAY}}));
 	let thorough = c.tier() == Tier::Thorough;
 	c.part_with(
-		PartSpec { name: "s1-receive", rule: "wip", quick_cases: 500, thorough_cases: 12_000, max_shrink: 300 },
+		PartSpec {
+			name: "s1-receive",
+			rule: "pair; final-hop HTLC whose expiry lies at a generated offset (-3..+3, or far) from the acceptance boundary height + HTLC_FAIL_BACK_BUFFER + 2 at the height where the receiver decides; 0-3 blocks (single / burst, all block delivery styles) before delivery and before the decision; oracle: no PaymentClaimable inside the buffer but an update_fail_htlc, PaymentClaimable with claim_deadline = expiry - HTLC_FAIL_BACK_BUFFER otherwise; then claim_funds at claim_deadline + (-4..+3) with blocks arriving singly (processing in between or not) or as a burst and a payer that answers 0-3 blocks late: below the deadline the claim completes at both ends and nothing goes on chain, from the deadline on the receiver has failed the HTLC back itself (exactly at the deadline height when it processes every block) and a late claim_funds claims nothing. Non-trivial: an offset within 2 blocks of a boundary",
+			quick_cases: 1200,
+			thorough_cases: 40_000,
+			max_shrink: 300,
+		},
 		s1_strategy,
 		s1_oracle,
 	);
 	c.part_with(
-		PartSpec { name: "s2-forward-admission", rule: "wip", quick_cases: 500, thorough_cases: 12_000, max_shrink: 300 },
+		PartSpec {
+			name: "s2-forward-admission",
+			rule: "line of three; the sender offers the forwarder its advertised CLTV delta (48..119) + (-3..+3) and fee + (-1..+2); final delta chosen so that the outgoing expiry is at offset -3..+3 from (next height + LATENCY_GRACE_PERIOD_BLOCKS + 1), the incoming expiry at offset -3..+3 from (next height + CLTV_FAR_FAR_AWAY), or the outgoing expiry at offset -3..+3 from the final hop's own acceptance boundary; blocks before delivery / decision as in S1; oracle: update_add_htlc to the next hop (with the onion's expiry) iff every threshold is met, otherwise update_fail_htlc upstream; the final hop is judged by the S1 rule. Non-trivial: an offset within 2 blocks of a threshold",
+			quick_cases: 1200,
+			thorough_cases: 40_000,
+			max_shrink: 300,
+		},
 		s2_strategy,
 		s2_oracle,
 	);
 	c.part_with(
-		PartSpec { name: "s3-dead-downstream", rule: "wip", quick_cases: 300, thorough_cases: 12_000, max_shrink: 200 },
+		PartSpec {
+			name: "s3-dead-downstream",
+			rule: "A-B-C, B's delta 48..119, final delta 42..53, normal and dust HTLCs; C silent (link withheld or disconnected, B-C commitment dance interrupted at 3 stages), C fulfils / fails when B's height is outgoing expiry + (-3..+3), or C claims on chain after waking up at outgoing expiry + (-3..+29) with the miner preferring either side; commitment confirms 1..18 blocks after B's trigger height, the HTLC output is resolved 0..18 blocks after a spend is minable, B may cross its trigger height inside a burst; oracle: B's first commitment broadcast for B-C happens at a height in [expiry + LATENCY_GRACE_PERIOD_BLOCKS, first height >= that at which B could act] and not at all if C answered before; C paid (off chain or preimage on chain) => A ends with PaymentSent; otherwise A ends with PaymentFailed and B's update_fail_htlc to A is emitted no earlier than ANTI_REORG_DELAY confirmations of the timeout spend (of the commitment, if the HTLC has no output) and before incoming expiry + grace; the A-B channel stays open and nothing of it is broadcast. Non-trivial: B went on chain or C answered at the last moment",
+			quick_cases: 600,
+			thorough_cases: 25_000,
+			max_shrink: 200,
+		},
 		s3_strategy,
 		s3_oracle,
 	);
 	c.part_with(
-		PartSpec { name: "s4-preimage-dead-upstream", rule: "wip", quick_cases: 300, thorough_cases: 12_000, max_shrink: 200 },
+		PartSpec {
+			name: "s4-preimage-dead-upstream",
+			rule: "pair; the receiver has claimed (preimage known) while the payer is disconnected, receives nothing, or does not answer; the payer returns when the receiver's height is (expiry - CLTV_CLAIM_BUFFER) + (-3..+2) or never; confirmation delays as in S3; oracle: payer back before the trigger => nothing is broadcast and the payment completes; otherwise the receiver's first commitment broadcast is at a height in [expiry - CLTV_CLAIM_BUFFER, first height >= that at which it could act], and the HTLC is settled in its favour on chain (preimage spend, or the payer's own commitment without the HTLC) at a height <= expiry. Non-trivial: every case (either a last-moment return or an on-chain claim)",
+			quick_cases: 600,
+			thorough_cases: 25_000,
+			max_shrink: 200,
+		},
 		s4_strategy,
 		s4_oracle,
 	);
 	c.part_with(
-		PartSpec { name: "s5-holding-cell", rule: "wip", quick_cases: 300, thorough_cases: 12_000, max_shrink: 200 },
+		PartSpec {
+			name: "s5-holding-cell",
+			rule: "A-B-C; the forward sits in B's holding cell because B awaits C's revoke_and_ack or a monitor update of B-C is in flight; the blockage ends when B's height is (outgoing expiry - LATENCY_GRACE_PERIOD_BLOCKS) + (-3..+3) or never; oracle: an update_add_htlc to C is only ever emitted at a height h with expiry > h + LATENCY_GRACE_PERIOD_BLOCKS; if the blockage does not end before, B emits update_fail_htlc to A exactly at that limit height, A sees PaymentFailed, no channel is closed. Non-trivial: release within 2 blocks of the limit or never",
+			quick_cases: 400,
+			thorough_cases: 15_000,
+			max_shrink: 200,
+		},
 		s5_strategy,
 		s5_oracle,
 	);
 	if thorough {
-		c.enumerate("s1-boundary-cross-product", "wip", s1_enumeration(), true, s1_oracle);
-		c.enumerate("s2-boundary-cross-product", "wip", s2_enumeration(), true, s2_oracle);
+		c.enumerate("s1-boundary-cross-product", "exhaustive over channel type x acceptance offset -3..+3 x claim-height offset -3..+3 x block arrival mode x 4 placements of the preceding blocks (S1 oracle)", s1_enumeration(), true, s1_oracle);
+		c.enumerate("s2-boundary-cross-product", "exhaustive over channel type x threshold (outgoing-too-soon, too-far, final-hop) x offset -3..+3 x offered-delta offset -3..+3 x 2 placements of the preceding blocks (S2 oracle)", s2_enumeration(), true, s2_oracle);
+		c.enumerate("s3-mode-cross-product", "exhaustive over channel type x every behaviour of C (silent x 3 stages x 2 link states, fulfil / fail at offsets -3..+3, on-chain wake-up at -3..+4 x miner preference) x 4 confirmation-delay profiles incl. both extremes (S3 oracle)", s3_enumeration(), true, s3_oracle);
+		c.enumerate("s4-mode-cross-product", "exhaustive over channel type x 3 kinds of dead payer x return offset {never, -3..+2} x 4 confirmation-delay profiles (S4 oracle)", s4_enumeration(), true, s4_oracle);
+		c.enumerate("s5-mode-cross-product", "exhaustive over channel type x 2 kinds of blockage x release offset {never, -3..+3} x 3 block arrival modes (S5 oracle)", s5_enumeration(), true, s5_oracle);
 	}
 	c.finish();
 }
